@@ -214,6 +214,12 @@ def f3(ctx):
                     elif has(lb, 'exists', 'F'):
                         if sw:
                             ctx.violate(key, p, 'signal is owned by a peer (not listed any more) but poll writes into it (%s)' % sw[0].name, at=sw[0].at)
+                        # the peer will wake the OLD waker and the new one cannot be stored any more: the poll has to finish
+                        # now (the peer is a few instructions from done), or at least wake the new waker itself
+                        if fam.final_ret(p, evs)[0] == 'Pending':
+                            selfwake = [e for e in evs if e.name == 'CALL' and e.data['callee'] in ('std::task::Waker::wake_by_ref', 'std::task::Waker::wake')]
+                            if not selfwake:
+                                ctx.violate(key, p, 'polled with a different waker after a peer took the entry, and poll returns Pending: only the stale waker will be woken, the task that now owns the future never is')
                 else:
                     if sw:
                         ctx.violate(key, p, 'Waiting arm writes into the shared signal (%s) without the changed-waker protocol' % sw[0].name, at=sw[0].at)
